@@ -251,7 +251,9 @@ def monitor (cfgF : Fields) (ops : List (Nat × Fields)) : String :=
         if woi && op = "evict" && quiet && w > 0 then some (fail "C12" "write_on_insertion_wrote_at_eviction" s!"{w} bytes") else none
       -- C15: graceful close
       let closeFail : Option String :=
-        if op = "reopen" && idHash then
+        if op = "reopen" && getD f "early" "0" = "1" then
+          some (fail "C15" "close_returned_before_device_writes_completed" "close() returned while the device writes of a flusher batch were still outstanding")
+        else if op = "reopen" && idHash then
           if foc && !woi then
             (st.prevMem.find? fun x => let (a, b) := aGet st.advice x; !(a && !b) && !a && !disk.contains x &&
                 !(st.big.contains ((tGet st.truth x).getD 0))).map fun x =>
